@@ -39,7 +39,7 @@ for S in ("A", "B", "C", "D"):
         rows.append("| %s%d | %s | %s | %s | %d checks run, %s |" % (
             S, k, n.get("kind", ""), ", ".join(n.get("files", [])), (n.get("what") or "").replace("|", "/")[:200],
             len(r["checks"]), ("all silent" if not bad else "ALARM: %s" % bad) +
-            ((" (%s re-run: the first run hit a theory file another work package was editing)" % ", ".join(rerun)) if rerun else "")))
+            ((" (%s re-run: the first run was disturbed by concurrent work on the shared tree (a theory file being edited, or the harness already using a hook the scratch worktree did not have yet))" % ", ".join(rerun)) if rerun else "")))
 open(V + "/seeded/harmless/RESULTS.md", "w").write(
     "# Behaviour-preserving refactorings run through every check\n\nWritten by fresh sub-agents given only a scratch worktree (no access to /verif), "
     "verified by them byte-identical on the shipped example batches; each patch was applied to a scratch worktree of /repo HEAD and ALL twenty quick "
